@@ -177,8 +177,22 @@ def _cases(tier, kind):
                     yield c
 
 
+def _tree_cases(tier):
+    """tree vectorizer: every forest <= 4 nodes over {a,b} with b removed, without mask / with mask / mask + nullify, all orientations"""
+    from checks.c15 import all_items
+    items = all_items(4, "ab")[:: (2 if tier == "quick" else 1)]
+    for r, k in ((1, "flat"), (2, "harmonic"), (3, "flat")):
+        for o in ("after", "before", "symmetric", "directional"):
+            for pr in (1, 2, 3):
+                for it in items:
+                    yield {"items": [it], "radius": r, "kernel": k, "orientation": o, "pruning": pr}
+
+
 def subchecks(tier, seed):
-    subs = []
+    from checks.c15 import run_case as run_tree
+    subs = [Sub("mask_tree", "I", (lambda: _tree_cases(tier)), run_tree, total=sum(1 for _ in _tree_cases(tier)),
+                describe="LabelledTreeCooccurrenceVectorizer: all forests <= 4 nodes over {a,b} with label b removed x {deleted, masked, masked + nullified} x radius/kernel x all four orientations (reference of C15: removed nodes contracted / replaced in place; with nullify the mask row and every mask column are zero)",
+                nontrivial_rule="reference matrix non-zero")]
     for kind in ("token", "timed", "multiset", "ngram"):
         gen = (lambda k: (lambda: _cases(tier, k)))(kind)
         subs.append(Sub("mask_" + kind, "I", gen, run_case, total=sum(1 for _ in gen()),
